@@ -2,6 +2,13 @@ module verif
 
 go 1.16
 
-require github.com/jf-tech/omniparser v0.0.0
+require (
+	github.com/antchfx/xmlquery v1.3.1
+	github.com/antchfx/xpath v1.1.11
+	github.com/dop251/goja v0.0.0-20230812105242-81d76064690d
+	github.com/jf-tech/go-corelib v0.0.14
+	github.com/jf-tech/omniparser v0.0.0
+	golang.org/x/text v0.3.8
+)
 
 replace github.com/jf-tech/omniparser => /repo
